@@ -4,6 +4,7 @@ C06 — Reader conformance (assignment of sub-streams to members).
 import SevenZ.Model.Assign
 import SevenZ.Spec.Format
 import SevenZ.Lemmas.Assign
+import SevenZ.Lemmas.Refine
 namespace SevenZ.C06
 open SevenZ
 
@@ -94,5 +95,46 @@ theorem spec_assign_uses_all (fuel : Nat) (files : List Spec.SFile) (folder take
 
 example : (Spec.assign [{ emptyStream := false }, { emptyStream := true }, { emptyStream := false }] [1, 0, 1] [4, 6] [some 9, none]).toOption.isSome = true := by
   decide +kernel
+
+/-! ### the parse half: py7zr's reader against the reader written from the format description -/
+
+/-- **PackInfo, for every input.** Whenever the strict reader of the format description accepts a PackInfo section
+    at the head of a byte string (any PackPos, any number of packed streams, with or without the CRC section, CRCs all
+    defined or partially defined), the model of `PackInfo._read` succeeds on the same bytes, stops at the same place
+    and returns the same position and sizes. No assumption about who wrote the bytes. -/
+theorem reader_refines_spec_packinfo (s : Bytes) (hs : Inp s) (sp : Spec.SPack) (r : Bytes)
+    (h : Spec.sPackInfo s = .ok (sp, r)) :
+    ∃ ip, Impl.readPackInfo s = .ok (ip, r) ∧ ip.packpos = sp.packpos ∧ ip.packsizes = sp.sizes ∧
+      ip.numstreams = sp.sizes.length := by
+  obtain ⟨ip, g, a, b, c, _⟩ := sPackInfo_refines' hs h
+  exact ⟨ip, g, a, b, c⟩
+
+/-- **UnpackInfo (folders), for every input.** Whenever the strict reader accepts an UnpackInfo section — any number
+    of folders, each with any chain of simple or complex coders, with or without properties, any bind pairs and packed
+    stream indices, unpack sizes, and the folder CRC section absent, all-defined or partially defined — the model of
+    `UnpackInfo._read` / `Folder._read` succeeds on the same bytes, stops at the same place and returns, folder by
+    folder, the same coders (an id-less coder as id `00`), in/out counts, properties, bind pairs, unpack sizes and CRC
+    (`folderOf`). -/
+theorem reader_refines_spec_unpackinfo (s : Bytes) (hs : Inp s) (fs : List Spec.SFolder) (r : Bytes)
+    (h : Spec.sUnpackInfo s = .ok (fs, r)) :
+    Impl.readUnpackInfo s = .ok (fs.map folderOf, r) :=
+  (sUnpackInfo_refines hs h).1
+
+/-- the primitives under both: NUMBER and boolean vectors are read alike wherever the strict reader accepts them -/
+theorem reader_refines_spec_number (s : Bytes) (hs : Inp s) (w : String) (v : Nat) (r : Bytes)
+    (h : Spec.sNumber w s = .ok (v, r)) : Impl.pNumber s = .ok (v, r) :=
+  (sNumber_refines' hs h).1
+
+theorem reader_refines_spec_boolvector (s : Bytes) (hs : Inp s) (n : Nat) (w : String) (bits : List Bool) (r : Bytes)
+    (h : Spec.sBoolList n w s = .ok (bits, r)) : Impl.pBools n true s = .ok (bits, r) :=
+  (sBoolList_refines' hs h).1
+
+-- non-vacuity: an UnpackInfo with two folders (Copy; BCJ2-like complex coder omitted), folder CRCs partially defined
+example : (Spec.sUnpackInfo [0x0B, 0x02, 0x00, 0x01, 0x01, 0x00, 0x01, 0x21, 0x21, 0x01, 0x18,
+      0x0C, 0x05, 0x07, 0x0A, 0x00, 0x80, 0x78, 0x56, 0x34, 0x12, 0x00, 0xEE]).toOption.map (fun x => (x.1.length, x.2)) = some (2, [0xEE]) ∧
+    Inp [0x0B, 0x02, 0x00, 0x01, 0x01, 0x00, 0x01, 0x21, 0x21, 0x01, 0x18,
+      0x0C, 0x05, 0x07, 0x0A, 0x00, 0x80, 0x78, 0x56, 0x34, 0x12, 0x00, 0xEE] := by
+  refine ⟨by decide +kernel, ?_, by decide⟩
+  intro b hb; simp at hb; omega
 
 end SevenZ.C06
